@@ -226,7 +226,7 @@ func HarnessC04Component() {
 	var page, want string
 	var data map[string]any
 	mustFail := false
-	switch vChoice("after", 5) {
+	switch vChoice("after", 7) {
 	case 0: // the page's own variable of the same name
 		page, want = "{{ t = \"P\" }}"+use+"|{{ t }}", "<C1>|P"
 	case 1: // a data variable of the same name
@@ -235,8 +235,14 @@ func HarnessC04Component() {
 		page, mustFail = use+"|{{ n }}", true
 	case 3: // ... so the page may bind it with another type
 		page, want = use+"{{ n = \"s\" }}|{{ n }}", "<C1>|s"
-	default: // an argument name is not visible afterwards either
+	case 4: // an argument name is not visible afterwards either
 		page, mustFail = "@component(\"~c\", {k: 1})|{{ k }}", true
+	case 5: // an argument value is evaluated where the use stands: it sees the page's a, not the earlier argument a
+		vfsWriteFile("templates/components/ab.tw", "{{ a }}-{{ b }}")
+		page, want = "{{ a = 5 }}@component(\"~ab\", {a: 1, b: a})", "1-5"
+	default: // ... and it fails when the page has no such name
+		vfsWriteFile("templates/components/ab.tw", "{{ a }}-{{ b }}")
+		page, mustFail = "@component(\"~ab\", {a: 1, b: a})", true
 	}
 	vfsWriteFile("templates/page.tw", page)
 	tpl, err := newTemplate("templates", ".tw")
